@@ -380,6 +380,9 @@ static void do_line(const char *mask, const char *hextext, long start) {
   free(text);
 }
 
+#ifdef HAVE_POKE
+int poke_cmd(const char *row, const char *idx, const char *val, char *out, size_t outlen);
+#endif
 /* ------------------------------------------------------------------ main */
 static void reset_all(void) {
   for (int i = 0; i < MAXI; i++)
@@ -466,6 +469,14 @@ int main(int argc, char **argv) {
       do_line(tok[1], tok[2], tok[3] ? atol(tok[3]) : 0);
       continue;
     }
+#ifdef HAVE_POKE
+    if (!strcmp(c, "poke")) { /* tools/table_mutants.py only */
+      char kb[400];
+      poke_cmd(tok[1], tok[2], tok[3], kb, sizeof kb);
+      oprintf("%s\n", kb);
+      continue;
+    }
+#endif
     if (!strcmp(c, "wrap")) {
       wrap_cmd(tok[1], tok[2], tok[3]);
       oputs("W\n");
